@@ -15,6 +15,7 @@ REPO = '/repo'
 WORK = os.path.join(ROOT, 'work')
 sys.path.insert(0, os.path.join(ROOT, 'run'))
 from props import PROPS, STD_AXIOMS, TRUSTED_BASE, FILES  # noqa: E402
+from levels import LEVELS  # noqa: E402
 
 ENV = dict(os.environ, CARGO_NET_OFFLINE='true')
 
@@ -365,7 +366,9 @@ def check(prop, tier, seed):
     wall = time.time() - t0
     evaluations = sum(c['requests'] for c in corr) + sum(s['evaluated'] for s in srch)
     nontriv = sum(c['distinct_nontrivial'] for c in corr)
-    level = spec['level'] if obligations > 0 and spec['level'] == 'proof' else ('other' if spec['level'] == 'proof' else spec['level'])
+    level = LEVELS[prop]['category']
+    if level == 'proof' and obligations == 0:
+        level = 'other'
     cov = {
         'obligations': obligations, 'discharged': discharged,
         'checker_cmd': 'cd lean && lake build %s && lake env lean Props/Audit/%s.lean' % (' '.join(targets), prop),
